@@ -114,11 +114,11 @@ fn query_event(ont: &Ontology, a: u32, b: u32) -> Value {
 }
 
 /// one random run; returns its events
-pub fn one_run(rng: &mut Rng, large: bool) -> Vec<Value> {
+pub fn one_run(rng: &mut Rng, large: bool, layout: u64) -> Vec<Value> {
     let mut ev: Vec<Value> = vec![];
     // a large run has deep chains: more than 30 ancestors / more than 10 parents per term cross the
     // inline capacity of the crate's small-vector backed id groups
-    let n = if large { rng.range(45, 70) as usize } else { rng.range(6, 16) as usize };
+    let n = if large { rng.range(52, 70) as usize } else { rng.range(6, 16) as usize };
     let mut ids: BTreeSet<u32> = BTreeSet::new();
     if rng.chance(1, 2) {
         ids.insert(1);
@@ -132,6 +132,37 @@ pub fn one_run(rng: &mut Rng, large: bool) -> Vec<Value> {
     // a random DAG: pick a hidden topological order, every term draws 0..3 parents among the earlier ones
     let mut topo = order.clone();
     rng.shuffle(&mut topo);
+    if large {
+        // numeric ids versus position in the graph are adversarial in large runs (the crate's id groups
+        // are sorted by id): ids ascending with depth, descending with depth, or the root in the middle
+        // with the short chain (positions 3, 7, 11, ...) directly below it and the long chain above
+        let mut sorted: Vec<u32> = ids.iter().copied().collect();
+        sorted.sort_unstable();
+        match layout % 4 {
+            1 => {}
+            2 => topo = sorted.clone(),
+            3 => {
+                topo = sorted.clone();
+                topo.reverse();
+            }
+            _ => {
+                let nb = (1..n).filter(|i| i % 4 == 3).count();
+                let mut t = vec![0u32; n];
+                t[0] = sorted[nb];
+                let (mut lo, mut hi) = (nb, nb + 1);
+                for i in 1..n {
+                    if i % 4 == 3 {
+                        lo -= 1;
+                        t[i] = sorted[lo];
+                    } else {
+                        t[i] = sorted[hi];
+                        hi += 1;
+                    }
+                }
+                topo = t;
+            }
+        }
+    }
     let mut edges: Vec<(u32, u32)> = vec![];
     for i in 1..topo.len() {
         let k = match rng.below(10) {
@@ -145,13 +176,30 @@ pub fn one_run(rng: &mut Rng, large: bool) -> Vec<Value> {
             ps.insert(topo[rng.below(i as u64) as usize]);
         }
         if large {
-            // chain backbone + an occasional term with many direct parents
-            ps.insert(topo[i - 1]);
-            if i > 14 && rng.chance(1, 12) {
-                for j in 0..12 {
-                    ps.insert(topo[i - 1 - j]);
+            // two chain backbones below a common root (a long one and a short one) + an occasional
+            // term with many direct parents: deep terms get > 30 ancestors, while terms of the
+            // other chain are unrelated to them and shallow
+            ps.clear();
+            let in_b = i % 4 == 3;
+            let prev = (1..i).rev().find(|j| (j % 4 == 3) == in_b).unwrap_or(0);
+            ps.insert(topo[prev]);
+            // extra parents stay inside the own chain (rarely a cross link), so that the two chains
+            // remain mostly unrelated
+            if rng.chance(1, 8) {
+                let same: Vec<usize> = (1..i).filter(|j| (j % 4 == 3) == in_b).collect();
+                if !same.is_empty() {
+                    ps.insert(topo[*rng.pick(&same)]);
                 }
             }
+            if rng.chance(1, 60) {
+                ps.insert(topo[rng.below(i as u64) as usize]);
+            }
+            if i > 20 && !in_b && rng.chance(1, 12) {
+                for j in (1..i).rev().filter(|j| j % 4 != 3).take(12) {
+                    ps.insert(topo[j]);
+                }
+            }
+            let _ = k;
         }
         for p in ps {
             edges.push((p, topo[i]));
@@ -227,8 +275,17 @@ pub fn one_run(rng: &mut Rng, large: bool) -> Vec<Value> {
     // pair queries on the built ontology: the structural results are validated by TLC (focus C04) against
     // HpoSetOps / HpoSim; the eight similarity formulas are evaluated here on exactly these observed
     // arguments and the terms' observed information content
-    for _ in 0..rng.range(2, 5) {
-        let (a, b) = (*rng.pick(&order), *rng.pick(&order));
+    let mut by_depth: Vec<(usize, u32)> = order.iter().map(|t| (ont.hpo(*t).map(|x| x.all_parent_ids().len()).unwrap_or(0), *t)).collect();
+    by_depth.sort();
+    for q in 0..(if large { 40 } else { rng.range(2, 5) }) {
+        let (a, b) = if large && q % 2 == 0 {
+            // a deep term (many ancestors) against a shallow one: very unequal ancestor groups
+            let deep = by_depth[by_depth.len() - 1 - rng.below(5.min(by_depth.len() as u64)) as usize].1;
+            let shallow = by_depth[rng.below(6.min(by_depth.len() as u64)) as usize].1;
+            if q % 4 == 0 { (deep, shallow) } else { (shallow, deep) }
+        } else {
+            (*rng.pick(&order), *rng.pick(&order))
+        };
         ev.push(query_event(&ont, a, b));
     }
     // sub-ontologies: a root and 1..3 leaves, mostly below the root
@@ -292,7 +349,9 @@ pub fn run(args: &Args) {
                 continue;
             }
         }
-        all.push((r, one_run(&mut rng, args.num("large-every", 0) > 0 && r % args.num("large-every", 1) == 0)));
+        // the id layouts of the large runs cycle deterministically (first: root in the middle)
+        let le = args.num("large-every", 0);
+        all.push((r, one_run(&mut rng, le > 0 && r % le.max(1) == 0, if le > 0 { r / le.max(1) } else { 0 })));
     }
     // one trace file per chunk (validated by parallel TLC processes); each starts with a header
     // line: the id universes of its runs (constants of the trace specification)
